@@ -210,6 +210,59 @@ def keepalive_oracle(res, scn):
     w.probes["c09_histories"] += 1
 
 
+class NoReasonFamily(ScenarioFamily):
+    """Concurrent callers under a configuration in which no permitted reason for closing
+    a pooled connection can ever arise (no keep-alive limit, no expiry, connection limit
+    never reached, servers keep connections open, every response is read completely, no
+    fault, no cancellation): no connection may be closed before the pool is, and no more
+    connections may be opened to an origin than requests were ever in flight to it at
+    the same time."""
+
+    chunk = 30
+
+    def __init__(self, name, ex, nq, nt):
+        super().__init__("C09", name, nq, nt)
+        self.ex = ex
+
+    def generate(self, seed, index, tier):
+        from .common import gen_poolmix
+
+        o = {"exec": self.ex, "protos": ["h1", "h1", "h2", "mix"], "max_connections": [None, 100],
+             "max_keepalive": [None], "expiries": [None], "proxies": ["none"] * 4 + ["http", "socks"],
+             "min_callers": 2, "max_callers": 5, "max_ops": 4, "p_pool_timeout": 0.0,
+             "resp_opts": {"p_conn_close": 0.0, "p_http10": 0.0, "framings": ["cl", "cl", "chunked"],
+                           "big": False},
+             "consume_opts": {"p_all": 2.0}, "big": False,
+             "policies": [{"mode": "ops", "op_p": 0.5}, {"mode": "lines", "p": 0.05},
+                          {"mode": "pct", "q": 0.004, "q_op": 0.05}]}
+        if self.ex == "threads":
+            o["protos"] = ["h1"]
+        scn = gen_poolmix(seed, tier, o)
+        scn["c09"] = {"mode": "no-reason"}
+        return scn
+
+    def post(self, res, scn):
+        w = res.world
+        if res.error:
+            return
+        led = w.ledger
+        closed_pool = led.of("pool_closed")
+        t_end = closed_pool[0][0] if closed_pool else 10 ** 12
+        first_close = next((e for e in led.of("wire_closing")), None)
+        callers_done = next((e for e in led.of("callers_done")), None)
+        if first_close is not None and callers_done is not None and first_close[0] < callers_done[0]:
+            w.violate("C09", "connection-closed-without-permitted-reason:concurrent",
+                      {"wire": first_close[3], "by": first_close[4], "site": first_close[5]})
+            return
+        for key, out in sorted(res.outcomes.items()):
+            if "exc" in out:
+                w.violate("C09", "request-failed:%s:concurrent" % out["exc"], {"msg": out.get("msg")})
+                return
+
+    def nontrivial(self, res, scn):
+        return True
+
+
 register("C09", {
     "level": "exploration",
     "rule": "single-caller histories of 3..16 requests (full read / partial read / early close) "
@@ -223,4 +276,6 @@ register("C09", {
                     "or server close, every idle close has a permitted reason), not a replica of "
                     "the eviction policy; at the exact expiry instant either behaviour is accepted"],
 }, [KeepAliveFamily("keepalive-async", "asyncio", 3000, 60000),
-    KeepAliveFamily("keepalive-threads", "threads", 800, 15000)])
+    KeepAliveFamily("keepalive-threads", "threads", 800, 15000),
+    NoReasonFamily("no-reason-no-close-async", "asyncio", 2500, 40000),
+    NoReasonFamily("no-reason-no-close-threads", "threads", 400, 8000)])
